@@ -190,6 +190,8 @@ func runC04(rc *RC) {
 	// ---- the faulted handshake ----
 	h := rc.newHS(kind, plainT)
 	cutErrs := []error{nil, io.ErrUnexpectedEOF, simnet.ErrReset}
+	// an injected I/O error is a plain error, a net.Error that reports a timeout, or ETIMEDOUT - while the context is alive
+	ioErrs := []error{simnet.ErrInjected, simnet.ErrInjectedTimeout, simnet.ErrInjectedETIMEDOUT}
 	cancelAt := -1
 	switch f.kind {
 	case "cut":
@@ -200,10 +202,10 @@ func runC04(rc *RC) {
 		d.CutAt, d.CutErr, d.CutSilent = f.k, cutErrs[f.variant], f.silent
 	case "readerr":
 		c := []*hsSide{h.C, h.S}[f.side].conn.Conn
-		c.ReadErrAt, c.ReadErr, c.ReadErrOnce = f.k, simnet.ErrInjected, f.once
+		c.ReadErrAt, c.ReadErr, c.ReadErrOnce = f.k, ioErrs[f.variant], f.once
 	case "writeerr":
 		c := []*hsSide{h.C, h.S}[f.side].conn.Conn
-		c.WriteErrAt, c.WriteErr, c.WritePartial, c.WriteErrOnce = f.k, simnet.ErrInjected, f.partial, f.once
+		c.WriteErrAt, c.WriteErr, c.WritePartial, c.WriteErrOnce = f.k, ioErrs[f.variant], f.partial, f.once
 	case "cancel":
 		cancelAt = f.k
 		if f.variant > 0 {
